@@ -110,7 +110,8 @@ def fns():
                         'r is Ok ==> 1 <= final(self).line <= 1 + nl(final(lexer).buffer@)',
                         'r matches Err(e) ==> 1 <= err_line(e) <= 1 + nl(final(lexer).buffer@) && final(self).line == old(self).line',
                         'r matches Ok(ev) ==> (ev is EndOfFile || final(lexer).measure() < old(lexer).measure())',
-                        'final(self).strict == old(self).strict && final(self).warnings == old(self).warnings && final(self).version_compatibility == old(self).version_compatibility']),
+                        'final(self).strict == old(self).strict && final(self).warnings == old(self).warnings && final(self).version_compatibility == old(self).version_compatibility',
+                        'final(self).fileversion == old(self).fileversion && final(self).current_element == old(self).current_element']),
         FnSpec('error', F, impl=IMPL_P, ret='r', label='ArxmlParser.error', sig_sub=[(r'pub\(crate\) fn', 'pub fn')],
                ensures=['r == parser_err(self, err)', 'err_line(r) == self.line']),
         FnSpec('optional_error', F, impl=IMPL_P, ret='r', sig_sub=[(r'pub\(crate\) fn', 'pub fn')],
